@@ -1,1 +1,109 @@
-"""Generators for per-cell lemma modules (filled in per property)."""
+"""Generators for per-cell lemma modules.
+
+Each generator returns (module_text, obligations, aux).  Obligations of kind 'coarse' quantify over a whole unit
+(one table, one layout); when one fails the check re-generates that unit cell by cell (`refine`) so that the failing
+cells are named.  Thorough tier is always cell by cell.  Cells listed as open known findings are excluded from the
+coarse lemma and asserted individually, together with a `#observed` twin that pins the recorded wrong value, so a
+*different* wrong value on the same cell is a new violation.
+"""
+import json
+import os
+
+from .rustlex import ExtractError
+
+TABLE_FN = {'plain': 'map_scancode', 'e0': 'map_extended_scancode', 'e1': 'map_extended2_scancode'}
+
+
+def load_findings(verif):
+    p = os.path.join(verif, 'known_findings.json')
+    if not os.path.exists(p):
+        return []
+    return [f for f in json.load(open(p, encoding='utf-8')).get('findings', []) if f.get('status') == 'open']
+
+
+def chunks(lst, n):
+    for i in range(0, len(lst), n):
+        yield lst[i:i + n]
+
+
+def res_expr(key):
+    return 'Ok::<KeyCode, Error>(KeyCode::%s)' % key if key else 'Err::<KeyCode, Error>(Error::UnknownKeyCode)'
+
+
+def check_tables_exist(info, sets=('ScancodeSet1', 'ScancodeSet2')):
+    have = set(d['fn'] for d in info.derived if d['kind'] == 'table')
+    for s in sets:
+        for fn in TABLE_FN.values():
+            if '%s::%s' % (s, fn) not in have:
+                raise ExtractError('lost-anchor: table function %s::%s not found' % (s, fn))
+
+
+def ref_fn_text(name, table, keycodes):
+    arms = []
+    for code in sorted(table, key=lambda c: int(c, 16)):
+        key = table[code]
+        if key not in keycodes:
+            raise ExtractError('reference table names key %s which is not a KeyCode variant any more' % key)
+        arms.append('        %su8 => Ok(KeyCode::%s),' % (code, key))
+    return 'pub open spec fn %s(code: u8) -> Result<KeyCode, Error> {\n    match code {\n%s\n        _ => Err(Error::UnknownKeyCode),\n    }\n}\n' % (name, '\n'.join(arms))
+
+
+def scancode_ref(info, prop, tier, verif, refine=()):
+    """C01 (Set 2) / C02 (Set 1): every cell of the three derived table denotations equals the reference table"""
+    setn = {'C01': 'set2', 'C02': 'set1'}[prop]
+    ty = {'set2': 'ScancodeSet2', 'set1': 'ScancodeSet1'}[setn]
+    check_tables_exist(info, (ty,))
+    ref = json.load(open(os.path.join(verif, 'spec', 'scancodes.json'), encoding='utf-8'))
+    known = {f['obligation']: f for f in load_findings(verif) if f['property'] == prop}
+    mod = 'verif_%s_cells' % prop.lower()
+    out = ['pub mod %s {' % mod, 'use vstd::prelude::*;', 'use crate::*;', '']
+    obs = {}
+    ncells = 0
+    for ctx in ('plain', 'e0', 'e1'):
+        out.append(ref_fn_text('ref_%s_%s' % (setn, ctx), ref[setn][ctx], info.keycodes))
+    for ctx in ('plain', 'e0', 'e1'):
+        kn_ = [c for c in range(256) if '%s/%s/%s/0x%02X' % (prop, setn, ctx, c) in known]
+        out.append('/// cells listed as open known findings (excluded from the quantified lemmas, asserted one by one below)')
+        out.append('pub open spec fn gap_%s_%s(c: u8) -> bool {\n    %s\n}\n' % (setn, ctx, ' || '.join('c == 0x%02Xu8' % c for c in kn_) if kn_ else 'false'))
+    for ctx in ('plain', 'e0', 'e1'):
+        unit = '%s/table/%s/%s' % (prop, setn, ctx)
+        fn = '%s::spec_%s' % (ty, TABLE_FN[ctx])
+        refn = 'ref_%s_%s' % (setn, ctx)
+        codes = list(range(256))
+        cell_id = lambda c: '%s/%s/%s/0x%02X' % (prop, setn, ctx, c)
+        kn = [c for c in codes if cell_id(c) in known]
+        percell = tier == 'thorough' or unit in refine
+        if not percell:
+            out.append('/*@LEMMA:%s@*/' % unit)
+            out.append('pub proof fn table_%s_%s()\n    ensures\n        forall|c: u8| !gap_%s_%s(c) ==> (#[trigger] %s(c)) == %s(c),\n{\n}' % (
+                setn, ctx, setn, ctx, fn, refn))
+            out.append('/*@ENDLEMMA@*/')
+            obs[unit] = {'kind': 'coarse', 'unit': unit, 'props': [prop], 'cells': 256 - len(kn),
+                         'text': 'forall code: %s(code) == reference %s/%s (%d cells)' % (fn, setn, ctx, 256 - len(kn))}
+            ncells += 256 - len(kn)
+            todo = kn
+        else:
+            # the quantified lemma is still needed by the sequence lemmas: state it from the cells (exempting known cells)
+            out.append('/*@LEMMA:%s@*/' % unit)
+            out.append('pub proof fn table_%s_%s()\n    ensures\n        forall|c: u8| !gap_%s_%s(c) ==> (#[trigger] %s(c)) == %s(c),\n{\n}' % (
+                setn, ctx, setn, ctx, fn, refn))
+            out.append('/*@ENDLEMMA@*/')
+            obs[unit] = {'kind': 'coarse', 'unit': unit, 'props': [prop], 'cells': 0,
+                         'text': 'forall code: %s(code) == reference %s/%s' % (fn, setn, ctx)}
+            todo = codes
+        # one proof fn per cell: after a failed assert Verus assumes it, which would make later asserts in the same
+        # function vacuous when the assumed fact is false
+        for c in todo:
+            cid = cell_id(c)
+            key = ref[setn][ctx].get('0x%02X' % c)
+            out.append('proof fn cell_%s_%s_%02x() { assert(%s(0x%02Xu8) == %s); } // CELL %s' % (setn, ctx, c, fn, c, res_expr(key), cid))
+            obs[cid] = {'kind': 'cell', 'unit': unit, 'props': [prop],
+                        'text': '%s %s code 0x%02X decodes to %s' % (setn, ctx, c, key or 'UnknownKeyCode')}
+            ncells += 1
+            if cid in known and known[cid].get('observed'):
+                out.append('proof fn cell_%s_%s_%02x_observed() { assert(%s(0x%02Xu8) == %s); } // CELL %s#observed' % (setn, ctx, c, fn, c, known[cid]['observed'], cid))
+                obs[cid + '#observed'] = {'kind': 'cell', 'unit': unit, 'props': [prop],
+                                          'text': 'known finding still has its recorded value: ' + known[cid]['observed']}
+    out.append('} // mod %s' % mod)
+    aux = {'reference': 'spec/scancodes.json', 'reference_errata': ref.get('errata', []), 'cells_checked': ncells}
+    return '\n'.join(out), obs, aux
